@@ -16,7 +16,7 @@ def plain(unit, h, **kw):
 # ------------------------------------------------------------------ unit civil
 CIVIL_LEMMAS = ['lemma_div146097', 'lemma_div400', 'lemma_fdshift4', 'lemma_fdshift100', 'lemma_fdshift400', 'lemma_fmshift',
                 'lemma_leapidx', 'lemma_cong', 'lemma_cong2', 'lemma_period', 'lemma_ordyear', 'lemma_lin_lift', 'lemma_lin_fits',
-                'lemma_quot_bounds', 'lemma_shift400', 'lemma_nday_lift', 'lemma_ordbound', 'lemma_valid28', 'lemma_dm_range', 'lemma_split1', 'lemma_split2', 'lemma_dm_small', 'lemma_carry',
+                'lemma_quot_bounds', 'lemma_shift400', 'lemma_nday_lift', 'lemma_ordbound', 'lemma_valid28', 'lemma_dm_range', 'lemma_split1', 'lemma_split2', 'lemma_dm_small', 'lemma_carry', 'lemma_validday', 'lemma_nmonpre', 'lemma_dm_lin', 'lemma_trunc', 'lemma_dm_mono', 'lemma_validrepr', 'lemma_ordy_mono', 'lemma_dayord_lex', 'lemma_udiff', 'lemma_fits',
                 'lemma_I_anchor', 'lemma_I_sk', 'lemma_I_period', 'lemma_I_leapidx', 'lemma_I_fmstep', 'lemma_I_yearstep',
                 'lemma_I_centstep', 'lemma_I_4step', 'lemma_I_monthstep', 'lemma_I_day']
 
@@ -38,6 +38,16 @@ def civil_carry_chain():
     return [enforce('civil', f, timeout=300) for f in ('n_mon', 'n_hour', 'n_min', 'n_sec')] + \
            [enforce('civil', 'align_' + t) for t in ('second', 'minute', 'hour', 'day', 'month', 'year')] + \
            [enforce('civil', 'ct_%s_ctor6' % t, timeout=300) for t in ('second', 'minute', 'hour', 'day', 'month', 'year')]
+
+
+def civil_c05_goals():
+    ts = ('second', 'minute', 'hour', 'day')
+    return [enforce('civil', 'step_' + t, timeout=300) for t in ts] + \
+           [enforce('civil', 'scale_add'), enforce('civil', 'difference_year'), enforce('civil', 'difference_month')] + \
+           [enforce('civil', 'difference_' + t, timeout=300) for t in ('hour', 'minute', 'second')] + \
+           [enforce('civil', 'ct_%s_plus' % t, timeout=300) for t in ts] + \
+           [enforce('civil', 'ct_%s_diff' % t, timeout=300) for t in ts] + \
+           [enforce('civil', 'ct_' + r) for r in ('lt', 'le', 'gt', 'ge', 'eq', 'ne')]
 
 
 PROPERTIES = {
@@ -84,6 +94,23 @@ def fixed_goals():
 
 NOT_YET = {}
 
+PROPERTIES['C05'] = dict(
+    goals=lambda: civil_spec_lemmas() + civil_leaves() + civil_nday() + civil_carry_chain() + civil_c05_goals(),
+    trusted_base=['/verif/stubs/prelude.h', '/verif/spec/gregorian.h',
+                  'ASSUMED (not yet discharged) contract: impl::day_difference / impl::ymd_ord return DAYORD(1) - DAYORD(2) - used by difference_day and above',
+                  'opaque specification symbols with definitions assumed at instantiated tuples (REVEAL_* macros)'],
+    level_text='Unbounded proof, for all valid civil times with int64 years and all int64 n within the representability bound, that for the second, minute, '
+               'hour and day alignments a + n moves the unit ordinal by exactly n (step_T through the carry chain proved under C04), that the difference of two '
+               'civil times is the difference of their unit ordinals given the day difference (scale_add chain, no intermediate overflow), and that the '
+               'relational operators are the lexicographic order on the six fields; code-free lemmas show the day ordinal orders valid dates exactly like '
+               '(year, month, day) (lemma_dayord_lex), so the order agrees with the sign of the difference.',
+    level_note='NOT discharged and therefore only assumed: the contract of impl::day_difference/ymd_ord (day difference across 400-year reductions); operator-(n) '
+               'incl. n = INT64_MIN; the month and year alignments (step_month, step_year, ct_month_*, ct_year_*); the two inverse laws as composed lemmas. '
+               'These parts are not counted as proved.',
+    not_decided='day_difference/ymd_ord bodies; operator-(n); month and year alignment arithmetic; composed inverse laws',
+    assumptions=['contract of impl::day_difference assumed (see trusted_base)'],
+)
+
 
 PROPERTIES['C15'] = dict(
     goals=fixed_goals,
@@ -97,3 +124,12 @@ PROPERTIES['C15'] = dict(
     not_decided='zone-level half (lookup of a fixed zone reports that offset at every instant; name cache identity) is decided under C01/C14, not here',
     assumptions=['names longer than 31 bytes are outside the std::string model (the code only compares their length)'],
 )
+
+
+# ------------------------------------------------------------------ unit zone
+ZONE_LEMMAS = ['lemma_epoch', 'lemma_secrepr']
+
+
+def zone_c01_goals():
+    return [plain('zone', 'pl_' + l, timeout=300) for l in ZONE_LEMMAS] + \
+           [enforce('zone', f, timeout=300) for f in ('LocalTime_TransitionType', 'LocalTime_Transition', 'BreakTime')]
